@@ -247,6 +247,10 @@ def run(spec):
     # history consistent with "everything up to the stored offset was processed by an earlier incarnation"
     if sc["start"][0] == "num" and sc["stored"] is not None and sc["stored"] >= sc["start"][1]:
         sc["stored"] = sc["start"][1] - 1 if sc["start"][1] >= 1 else None
+    if sc["start"][0] in ("earliest", "latest") and sc["stored"] is not None:
+        # likewise: starting at the log's end points although the group has a stored offset is an application
+        # rewind / skip, outside "resume from the committed position"
+        sc["stored"] = None
     # keep crash scenarios small enough to enumerate often
     tr = run_full(sc, res)
     if tr.capped:
